@@ -132,10 +132,13 @@ impl AwsChunkedStream {
                     prev_signature: seed_signature,
                 };
 
+                let mut total_length: usize = 0;
+
                 loop {
                     let meta = {
                         match Self::read_meta_bytes(body.as_mut(), prev_bytes, &mut buf).await {
-                            None => break,
+                            // the body must be terminated by the signed zero-length chunk
+                            None => return Err(AwsChunkedStreamError::Incomplete),
                             Some(Err(e)) => return Err(AwsChunkedStreamError::Underlying(e)),
                             Some(Ok(remaining_bytes)) => prev_bytes = remaining_bytes,
                         }
@@ -162,9 +165,20 @@ impl AwsChunkedStream {
                         Some(signature) => ctx.prev_signature = signature,
                     }
 
+                    let is_last_chunk = meta.size == 0;
+
                     for bytes in data {
+                        total_length = total_length.saturating_add(bytes.len());
                         y.yield_ok(bytes).await;
                     }
+
+                    if is_last_chunk {
+                        break;
+                    }
+                }
+
+                if total_length != decoded_content_length {
+                    return Err(AwsChunkedStreamError::Incomplete);
                 }
 
                 Ok(())
